@@ -12,7 +12,7 @@ PROP = {'title': 'Ranges and iterators enumerate exactly their documented sequen
                'ranges longer than the walk cap (1024 quick / 16384 thorough, 70000 for 16 bit thorough) are compared on their first cap '
                'elements and on size(); the thorough sweep over all 16-bit pairs walks 3 elements per range; cyclic_iterator also with '
                'large multiples of the boundary length (up to 2^40*len+-1) against a 128-bit modulus; ASan/UBSan/_GLIBCXX_ASSERTIONS aborts are attributed to the announced case',
- 'binaries': [{'name': 'C18', 'sources': ['harness/C18.cpp', 'harness/C18_grid.cpp'], 'libs': [], 'flavour': 'asan'}],
+ 'binaries': [{'name': 'C18', 'sources': ['harness/C18.cpp', 'harness/C18_grid.cpp', 'harness/C18_protocol.cpp'], 'libs': [], 'flavour': 'asan'}],
  'deadline': {'quick': 240, 'thorough': 1200},
  'rule': 'nested loops over explicit domains: all (b,e) and all counts of int8_t/uint8_t (plain and behind a strong typedef), thorough tier: all 2^32 (b,e) of int16_t and of uint16_t with the walk cut after 3 elements, lattice '
          '{0,+-1..,+-(2^k-1),+-2^k,+-(2^k+1),min..min+2,max-2..max} pairs of 16/32/64-bit types, all closed sub-ranges of enums with '
@@ -22,7 +22,15 @@ PROP = {'title': 'Ranges and iterators enumerate exactly their documented sequen
          'all sub-ranges of containers of length 0..6 (thorough 0..9) for iterator::range/make_range/adapt_range, all positions of a square '
          'for moore/neumann neighbours; a case is non-trivial when the range is not the empty b==e case, the enum sub-range has >= 2 '
          'elements or ends at the last enumerator, the cyclic walk wraps around at least once, the spiral distance is >= 1, the '
-         'sub-range is non-empty; cases are distinct argument tuples',
+         'sub-range is non-empty; cases are distinct argument tuples. Iterator protocol (protocol:* shards, laws in harness/C18_protocol.hpp): '
+         'for every iterator/range type and all ranges of up to 6 (thorough 9) elements of the same domains (spiral: distances 0..3, '
+         'thorough 0..5; cyclic: the len-1 positions after the start) an iterator is collected for every position incl. end and all '
+         'pairs are compared (==, != in both operand orders, reflexivity, copies, against begin()/end()), loops written `end != it` / '
+         '`!(end == it)` must stop after n steps (step fuel), multi-pass and lockstep copies (forward+), an element obtained with *it '
+         'must survive ++it and the destruction of the iterator (forward+, and iterators whose header declares a value as reference '
+         'type), *(it+k), it[k], *prev(it), reverse_iterator, adjacent_find/is_sorted/minmax_element/equal/distance/next vs the model, '
+         'random access arithmetic and order for all position pairs, copy/move construction and assignment, swap, value-initialised '
+         'iterators, and iterator_traits vs the declaring header; a protocol case is non-trivial when the range has >= 2 elements',
  'assumptions': ['size() is compared only when the element count is representable in the range\'s own integer type (statement)',
                  'fcppt::range::size is compared for signed plain int ranges only: it does not compile for int_range over unsigned or '
                  'strong-typedef types (difference_type is the element type)',
@@ -31,4 +39,9 @@ PROP = {'title': 'Ranges and iterators enumerate exactly their documented sequen
                  'cyclic iterator: start positions inside the boundary [first,last); boundaries are non-empty',
                  'spiral: non-negative distances, coordinates far from the limits of the coordinate type',
                  'moore/neumann: element order in the returned array is undocumented and not compared; unsigned positions start at 1',
-                 'the converting constructor/assignment of cyclic_iterator is outside the statement and not instantiated']}
+                 'the converting constructor/assignment of cyclic_iterator is outside the statement and not instantiated',
+                 'int_iterator, enum_::iterator and spiral_iterator are input iterators: multi-pass and the std algorithms are not asserted '
+                 'for them; element stability across ++it is asserted because their headers declare operator* to return a value',
+                 'cyclic_iterator over random access iterators: for a walked range that wraps around the boundary last - first is the '
+                 '(negative) distance of the underlying iterators as documented; std::distance/std::equal and it_j - it_i == j - i are '
+                 'asserted only for walks that do not wrap (the wrapped cases are counted in the evidence)']}
